@@ -25,9 +25,9 @@ def intValue (text : String) : In Val :=
   | none => .bad
 
 /-- an `f64` written as a plain decimal -/
-def f64Value (text : String) (mfd : Option Nat := none) : In Val :=
+def f64Value (text : String) (mfd : Option Nat := none) (ty : NumType := .cardinal) : In Val :=
   match parseDec (strBytes text) with
-  | some d => if sigDigits d > 15 then .unsupported else .ok (.num ⟨d, { minimumFractionDigits := mfd }⟩)
+  | some d => if sigDigits d > 15 then .unsupported else .ok (.num ⟨d, { minimumFractionDigits := mfd, type := ty }⟩)
   | none => .unsupported
 
 /-- an `f32` is in the domain when it is a small dyadic rational (then `as f64` and printing are exact) -/
@@ -75,6 +75,11 @@ def parseVal (tok : String) : In Val :=
       if m == "-" then f64Value v none
       else match m.toNat? with
         | some k => f64Value v (some k)
+        | none => .bad
+    | [v, m, "o"] =>          -- the caller's number already carries type = ordinal
+      if m == "-" then f64Value v none .ordinal
+      else match m.toNat? with
+        | some k => f64Value v (some k) .ordinal
         | none => .bad
     | _ => .bad
   | _ => .unsupported
